@@ -1131,15 +1131,15 @@ Structure read_pdb_from_stream(AnyStream& line_reader, const std::string& source
 
     } else if (is_record_type4(line, "TITLE")) {
       if (len > 10)
-        st.info["_struct.title"] += rtrim_str(std::string(line+10, len-10-1));
+        st.info["_struct.title"] += rtrim_str(std::string(line+10, line+len));
 
     } else if (is_record_type4(line, "KEYWDS")) {
       if (len > 10)
-        st.info["_struct_keywords.text"] += rtrim_str(std::string(line+10, len-10-1));
+        st.info["_struct_keywords.text"] += rtrim_str(std::string(line+10, line+len));
 
     } else if (is_record_type4(line, "EXPDTA")) {
       if (len > 10)
-        st.info["_exptl.method"] += trim_str(std::string(line+10, len-10-1));
+        st.info["_exptl.method"] += trim_str(std::string(line+10, line+len));
 
     } else if (is_record_type4(line, "AUTHOR") && len > 10) {
       std::string last;
